@@ -33,7 +33,12 @@ pub struct Shape {
     pub largest_ttl: Option<u8>,
 }
 
+/// Selectors below 200 give every hop its own address; 200 and above name one host whatever the
+/// ttl (the target answering several probes of a round, a routing loop).
 pub fn addr(sel: u8, ttl: u8) -> IpAddr {
+    if sel >= 200 {
+        return IpAddr::V4(Ipv4Addr::new(10, sel, 0, 1));
+    }
     IpAddr::V4(Ipv4Addr::new(10, sel, ttl, 1))
 }
 
